@@ -318,14 +318,28 @@ func (e *Engine) onData(pkt *spec.Data, sigCovered enc.Wire, raw enc.Wire, pitTo
 }
 
 func (e *Engine) onNack(name enc.Name, reason uint64) {
+	// An Interest with an implicit digest is stored at the node of its name without the digest
+	// (see Express). A Nack only concerns the pending Interests that carry the nacked name, digest included.
+	var impSha256 []byte = nil
+	nodeName := name
+	if len(name) > 0 && name[len(name)-1].Typ == enc.TypeImplicitSha256DigestComponent {
+		impSha256 = name[len(name)-1].Val
+		nodeName = name[:len(name)-1]
+	}
+
 	e.pitLock.Lock()
 	defer e.pitLock.Unlock()
-	n := e.pit.ExactMatch(name)
+	n := e.pit.ExactMatch(nodeName)
 	if n == nil {
 		e.log.WithField("name", name.String()).Warn("Received Nack for an unknown interest. Drop.")
 		return
 	}
+	newList := make([]*pendInt, 0, len(n.Value()))
 	for _, entry := range n.Value() {
+		if !bytes.Equal(entry.impSha256, impSha256) {
+			newList = append(newList, entry)
+			continue
+		}
 		entry.timeoutCancel()
 		if entry.callback != nil {
 			entry.callback(ndn.ExpressCallbackArgs{
@@ -336,9 +350,9 @@ func (e *Engine) onNack(name enc.Name, reason uint64) {
 			e.log.Fatalf("PIT has empty entry. This should not happen. Please check the implementation.")
 		}
 	}
-	// All Interests of this node are resolved. Only remove the node if nothing is pending below it;
+	// Only remove the node if nothing is pending at or below it;
 	// Interests pending for shorter names stay where they are.
-	n.SetValue(nil)
+	n.SetValue(newList)
 	n.DeleteIf(func(lst []*pendInt) bool {
 		return len(lst) == 0
 	})
